@@ -471,17 +471,17 @@ func ruleCall(c *Ctx, mode string) *RuleResult {
 						}
 					case "sort_by", "reverse":
 						// (reverse fills a pre-sized slice by index: that every slot is overwritten is index arithmetic, not decided)
-						if tuple[0]&AStrings == 0 && elems.k == 'I' && string(elems.prov) != "elem(arg#0)" && !(string(elems.prov) == "elem(arg#0)+zero" || string(elems.prov) == "zero") {
+						if tuple[0]&AStrings == 0 && elems.k == 'I' && string(elems.prov) != "elem(arg#0)" && !(string(elems.prov) == "elem(arg#0)+zero?" || string(elems.prov) == "zero?" || (name == "reverse" && (string(elems.prov) == "elem(arg#0)+zero" || string(elems.prov) == "zero"))) {
 							v.bad = append(v.bad, fmt.Sprintf("%s must return the elements of its array argument, returns elements %s", x.label, orNone(string(elems.prov))))
 						}
 					case "values":
-						if elems.k == 'I' && string(elems.prov) != "member(arg#0)" && string(elems.prov) != "member(arg#0)+zero" {
+						if elems.k == 'I' && string(elems.prov) != "member(arg#0)" && string(elems.prov) != "member(arg#0)+zero?" {
 							v.bad = append(v.bad, fmt.Sprintf("%s must return the members of its argument, returns %s", x.label, orNone(string(elems.prov))))
 						}
 					case "map":
 						if elems.k == 'I' {
 							for _, pp := range strings.Split(string(elems.prov), "+") {
-								if pp == "zero" {
+								if pp == "zero?" {
 									continue // a slot of a pre-sized slice: that every slot is overwritten is index arithmetic, not decided
 								}
 								if !strings.HasPrefix(pp, "res#") {
